@@ -13,7 +13,8 @@ LEVEL = "exploration"
 RULE = ("history monitor over chains: every ordering that uses unit_scale at most once and at most one format simulation (simulate_fp8 / "
         "lossless / E5M2-nearest / pinned-random stochastic), optionally ended by track_scales (or compile, thorough tier), applied to "
         "generated small modules (MLP, residual block, attention block, plain chains; float32), followed by 1-3 forward/backward "
-        "calls. Observed: bit snapshots + storage-pointer sets of the original and of every intermediate, per-call outputs and "
+        "calls; in half of the longer chains every intermediate module is itself run forward+backward before the next transform; a "
+        "'uu' family is built from unit-scaled layers. Observed: bit snapshots + storage-pointer sets of the original and of every intermediate, per-call outputs and "
         "gradients, result.backends, captured library log records (backend runs), FPFormat.quantise call counts; chains with both "
         "transforms are also run in the swapped order. Oracle: original bit-unchanged and storage-disjoint; repeated calls identical; "
         "both orders equal each other and the recipe-then-quantised reference interpreter; per trace each backend runs exactly once, "
